@@ -16,7 +16,7 @@ PROPS = {
               "Non-trivial: length mismatch, window strictly inside its root, partial last frame with >=2 channels, "
               "nil/empty/uneven striped member, S != B, or write-then-read round trip. Distinct = distinct 64-bit "
               "fingerprint of the canonical case."
-          " Fixtures are built in three construction orders (fill-then-slice, slice-then-fill, fill through an alias); caller slices are windows of larger caller-owned arrays whose tails are compared too; channel counts reach 140; values representable in both types include short-mantissa integers up to the integer type's range and +0/-0; sweeps add 65536+k-sample buffers."),
+          " Fixtures are built in three construction orders (fill-then-slice, slice-then-fill, fill through an alias); caller slices are windows of larger caller-owned arrays whose tails are compared too; channel counts reach 140; values representable in both types include short-mantissa integers up to the integer type's range and +0/-0; sweeps add 65536+k-sample buffers. Window content may also be appended in two pieces (single samples, then an in-place Append of the rest) so that both pieces end in partial frames."),
         quick=dict(rapid=dict(checks=100000, shards=8)),
         thorough=dict(rapid=dict(checks=400000, shards=16), fuzz=dict(targets=["FuzzC01"], seconds=45)),
         assumptions=COMMON_ASSUME,
@@ -76,7 +76,7 @@ PROPS["C04"] = dict(
     assumptions=COMMON_ASSUME,
     technique="property-based testing (rapid) + bounded-exhaustive sweep against a sequence model with whole-storage frame condition",
     level_text=("Generated call sequences against a sequence model; exhaustive for all 13 types, C<=4, roots <=3 (5) frames, all windows, every call "
-                "count 0..spare+C+1 and far beyond capacity; larger shapes sampled."),
+                "count 0..spare+C+1 and far beyond capacity; larger shapes sampled. Buffers produced by a growing Append are tested themselves and through windows of them (capacity of the window not a whole number of frames)."),
     level_note="Trusts Alloc/Slice/Sample to build and observe fixtures.",
 )
 
@@ -94,7 +94,7 @@ PROPS["C05"] = dict(
     assumptions=COMMON_ASSUME,
     technique="property-based testing (rapid) + bounded-exhaustive shape sweep: whole-storage frame condition plus metamorphic single-sample re-conversion; direct oracle for float-to-float",
     level_text=("Generated-input search over all 169 instantiations; exhaustive over all window pairs of roots <=2 (3) frames, C<=3, per instantiation; "
-                "values and larger shapes sampled. The numeric correctness of the point function is C06-C09's."),
+                "values and larger shapes sampled. The numeric correctness of the point function is C06-C09's. Operand content may be appended in two pieces (single samples, then an in-place Append), both ending in partial frames."),
     level_note="The position-wise law compares two contexts of the same conversion; trusts Alloc/Slice/AppendSample/Sample to build fixtures.",
 )
 PROPS["C13"] = dict(
@@ -108,7 +108,7 @@ PROPS["C13"] = dict(
     thorough=dict(rapid=dict(checks=100000, shards=16), fuzz=dict(targets=["FuzzC13"], seconds=20)),
     assumptions=COMMON_ASSUME,
     technique="property-based testing (rapid) + bounded-exhaustive shape sweep with zero-fill and independence stamps",
-    level_text=("Exhaustive over 26 types x C<=8 (16) x all L<=K<=6 (9); larger shapes (C to 64, K to 4096) sampled by rapid."),
+    level_text=("Exhaustive over 26 types x C<=8 (16) x all L<=K<=6 (9); larger shapes (C to 64, K to 4096) sampled by rapid. In a third of the pairs nothing is sliced before the first store: direct reads up to the length, fill to capacity by AppendSample, an allocation made afterwards read directly."),
     level_note="Trusts Slice and Sample/SetSample to observe the capacity region; bit width of int/uint/uintptr is this platform's (64).",
 )
 
@@ -124,7 +124,7 @@ PROPS["C14"] = dict(
     thorough=dict(rapid=dict(checks=150000, shards=16), fuzz=dict(targets=["FuzzC14"], seconds=20)),
     assumptions=COMMON_ASSUME,
     technique="property-based testing (rapid) + exhaustive sweep over channels/indices against harness-computed interleaved positions with whole-storage diff",
-    level_text=("Exhaustive over 13 types x C 1..8 x roots <=6 (9) frames x all windows x every channel x every index; larger parents sampled."),
+    level_text=("Exhaustive over 13 types x C 1..8 x roots <=6 (9) frames x all windows x every channel x every index; larger parents sampled. In a third of the cases views of the root or of an intermediate window were taken before the parent window was cut."),
     level_note="BufferIndex is called with the view's own channel as first argument (as the repository's test does). Trusts Alloc/Slice and root Sample/SetSample.",
 )
 PROPS["C15"] = dict(
@@ -136,7 +136,7 @@ PROPS["C15"] = dict(
           "Oracle: the call panics; afterwards both operands' whole root storage, headers and the caller's slices are unchanged; for Put the "
           "rejected buffer is intact (not cleared) and the next three Gets return allocator-shaped zeroed buffers. Every case is a mismatch "
           "by construction; distinct = distinct (entry point, types, shapes)."
-          " Operands may end in partial frames; the caller's outer slice may have further per-channel slices behind its length."),
+          " Operands may end in partial frames; the caller's outer slice may have further per-channel slices behind its length. Operands may hold fewer samples than one frame (1..C-1 single samples in an empty window)."),
     quick=dict(rapid=dict(checks=40000, shards=8)),
     thorough=dict(rapid=dict(checks=150000, shards=16), fuzz=dict(targets=["FuzzC15"], seconds=20)),
     assumptions=COMMON_ASSUME,
@@ -182,7 +182,7 @@ PROPS["C06"] = dict(
     assumptions=NUM_ASSUME,
     technique="exhaustive enumeration of all 8/16/32-bit source codes in amplitude order + property-based testing (rapid) on 64-bit sources; order and reference-level oracle in exact integer arithmetic",
     level_text=("Complete enumeration of every 8- and 16-bit source code (quick) and every 32-bit source code (thorough) for all destinations decides order "
-                "preservation exactly on those sub-domains; 64-bit sources are sampled densely at boundaries and at random (order is checked on sorted samples)."),
+                "preservation exactly on those sub-domains; 64-bit sources are sampled densely at boundaries and at random (order is checked on sorted samples). Long and wide at once: 12 channels x 40000 and 64 channels x 70001 samples per pair in the sweep; rapid couples very long buffers with 1..64 channels."),
     level_note="Order preservation between two arbitrary 64-bit inputs is only sampled; adjacent-code monotonicity on the swept domains implies it there.",
 )
 
@@ -197,7 +197,7 @@ PROPS["C07"] = dict(
     assumptions=NUM_ASSUME,
     technique="exhaustive enumeration of all 8/16/32-bit source codes + property-based testing (rapid) on 64-bit sources; floor/ceil accuracy oracle and widen-then-narrow round trip in exact integer arithmetic",
     level_text=("Complete enumeration of every 8/16-bit (quick) and 32-bit (thorough) source code for all 11 destinations, including every widen-and-back "
-                "composition; 64-bit sources sampled at boundaries and at random."),
+                "composition; 64-bit sources sampled at boundaries and at random. Long and wide at once: 12 channels x 40000 and 64 channels x 70001 samples per pair in the sweep; rapid couples very long buffers with 1..64 channels."),
     level_note="Round trips return to every element type with the source's signedness and depth (int/int64, uint/uint64/uintptr).",
 )
 
@@ -216,7 +216,7 @@ PROPS["C08"] = dict(
     assumptions=NUM_ASSUME + ["NaN inputs are excluded (result unspecified by the property)", "the verdict is for linux/amd64, where the library relies on the platform's float-to-integer conversion for in-range negative inputs to unsigned types"],
     technique="exhaustive enumeration of all float32 bit patterns (thorough) + boundary-dense sweep + property-based testing (rapid) and native fuzzing; clip/linearity/monotonicity oracle decided with exact 128-bit arithmetic",
     level_text=("Every non-NaN float32 input for all 11 float32-source instantiations is enumerated in numeric order (thorough), which decides clipping, accuracy and "
-                "monotonicity exactly there; float64 inputs are sampled densely at the boundaries the property names and at random."),
+                "monotonicity exactly there; float64 inputs are sampled densely at the boundaries the property names and at random. Long and wide at once: 12 channels x 40000 and 64 channels x 70001 samples per instantiation in the sweep; rapid couples very long buffers with 1..64 channels."),
     level_note="The one-step tolerance is the property's own; the oracle has no floating tolerance of its own (exact integer comparison).",
 )
 
@@ -234,7 +234,7 @@ PROPS["C09"] = dict(
     assumptions=NUM_ASSUME,
     technique="exhaustive enumeration of all 8/16/32-bit source codes + property-based testing (rapid) on 64-bit sources; range/level/order/accuracy oracle and round trip through the inverse conversion",
     level_text=("Complete enumeration of every 8/16-bit (quick) and 32-bit (thorough) code into both float types, with injectivity and round trips; 64-bit sources "
-                "sampled. One known finding (F9, UnsignedAsFloat) is reported as KNOWN-FINDING and excluded by a structural predicate."),
+                "sampled. One known finding (F9, UnsignedAsFloat) is reported as KNOWN-FINDING and excluded by a structural predicate. Long and wide at once: 12 channels x 40000 and 64 channels x 70001 samples per pair in the sweep; rapid couples very long buffers with 1..64 channels."),
     level_note="'plus float rounding' is taken as 4 ulp of 1 in the destination float type.",
 )
 PROPS["C16"] = dict(
@@ -275,7 +275,7 @@ PROPS["C10"] = dict(
           "Channels/Length/Capacity/Len/Cap/BitDepth equal a fresh Alloc's and every sample over Slice(0,K) is zero; after every step every outstanding buffer "
           "still reads its own ownership stamp plus its own writes over its whole capacity (no shared storage). Non-trivial: a get that returned a recycled "
           "object (pointer previously passed to Put); sub-classes recycled after dirty use, after reslice-to-shorter, with L>0, several outstanding."
-          " A checked-out buffer keeps all its headers (the original and every reslice from frame 0): operations and Put may go through any of them; a header that grows beyond the capacity leaves alone; 'quiet' checkouts are not stamped; floating types get -0.0 among the written values."),
+          " A checked-out buffer keeps all its headers (the original and every reslice from frame 0): operations and Put may go through any of them; a header that grows beyond the capacity leaves alone; 'quiet' checkouts are not stamped; floating types get -0.0 among the written values. Burst histories keep up to 40 buffers checked out at once and put them back oldest or newest first; a buffer object returned by Get while a checkout still holds it is a violation."),
     quick=dict(rapid=dict(checks=20000, shards=8)),
     thorough=dict(rapid=dict(checks=50000, shards=16), fuzz=dict(targets=["FuzzC10"], seconds=30)),
     assumptions=COMMON_ASSUME + ["sync.Pool hands a just-put object back to the same goroutine almost always; the class histogram in the evidence shows how often a recycled buffer was observed"],
@@ -317,7 +317,7 @@ PROPS["C18"] = dict(
     assumptions=COMMON_ASSUME + ["escape analysis and inlining are compiler decisions: the verdict is for go1.23.5 and the generated instantiations/shapes",
                                  "non-race build, one process per shard (AllocsPerRun pins GOMAXPROCS to 1 and reads process-wide malloc counters)"],
     technique="property-based testing (rapid) + exhaustive operation x type sweep with testing.AllocsPerRun as the oracle",
-    level_text=("Every operation x every element type (all 169 conversions) is measured at several shapes in both tiers; rapid samples further shapes and type pairs."),
+    level_text=("Every operation x every element type (all 169 conversions) is measured at several shapes in both tiers; rapid samples further shapes and type pairs. Append within capacity also with source and destination being windows of one parent, and of a buffer onto itself."),
     level_note="AllocsPerRun truncates the per-run average, so a one-off allocation by the runtime (e.g. a pool refill after GC) does not count while any per-call allocation does.",
 )
 PROPS["C11"] = dict(
@@ -336,7 +336,7 @@ PROPS["C11"] = dict(
     technique="randomised concurrent stress under the Go race detector with rapid-generated configurations (goroutines, GOMAXPROCS, yield points, GC); freshness and ownership-stamp oracle",
     level_text=("Schedule sampling, not enumeration: rapid generates the concurrency configuration, the Go scheduler picks the interleaving. Decisive for the realistic defect classes "
                 "(unsynchronised shared state in the pool, shared buffers handed out twice) through the race detector and ownership stamps; a defect needing one specific "
-                "preemption point is out of reach (DESIGN.md section 6)."),
+                "preemption point is out of reach (DESIGN.md section 6). Goroutines hold 1..4 buffers at the same time (released in get order or newest first); hammer cases run thousands of cycles on tiny buffers, a third of them with a shared ownership table."),
     level_note="Race reports are turned into violations with the process log as the replay artefact.",
 )
 FIRSTUSE = [dict(name="firstuse-" + t, run="TestFirstUse", env={"VERIF_FIRST_TYPE": t})
@@ -358,7 +358,7 @@ PROPS["C19"] = dict(
                                  "the race detector reports unordered conflicting accesses that actually executed"],
     technique="randomised concurrent stress under the Go race detector with rapid-generated reader/writer scripts; differential oracle against the sequential execution of the same scripts",
     level_text=("Schedule sampling, not enumeration. Hidden shared mutable state in a read path or a write outside a slice's window is an unordered conflicting access, which the race "
-                "detector reports whenever both accesses execute, whatever the interleaving; results are also compared with a sequential run."),
+                "detector reports whenever both accesses execute, whatever the interleaving; results are also compared with a sequential run. A fifth of the cases use 5..17 (rarely 60..70) channels; the sweep includes 9 and 16."),
     level_note="Race reports are turned into violations with the process log as the replay artefact.",
 )
 
